@@ -91,7 +91,18 @@ FAMILIES = {
     "format_seq": (2, lambda n: wrap("".join("%d format (1x, i4, 'a', f8.3)\n" % (100 + k) for k in range(n)))),
 }
 
-EXPR_NEST = ("parens", "signed_parens", "plus_signed", "signed_sum", "not_parens", "call_nest", "index_nest",
+# every binary operator level with a parenthesised right (and left) operand at each nesting level
+_OPNEST = {"and": (".and.", "l", "m"), "or": (".or.", "l", "m"), "eqv": (".neqv.", "l", "m"), "dot_rel": (".gt.", "l", "b"),
+           "sym_rel": ("<=", "l", "b"), "add": ("-", "x", "b"), "mul": ("/", "x", "b"), "pow": ("**", "x", "b"),
+           "cat": ("//", "s", "s"), "defop": (".myop.", "x", "b")}
+for _k, (_op, _lhs, _a) in _OPNEST.items():
+    FAMILIES["paren_right_" + _k] = (2, lambda d, o=_op, t=_lhs, a=_a: wrap(
+        "  %s = %s\n" % (t, ("(%s %s " % (a, o)) * d + a + ")" * d)))
+    FAMILIES["paren_left_" + _k] = (2, lambda d, o=_op, t=_lhs, a=_a: wrap(
+        "  %s = %s\n" % (t, "(" * d + a + (" %s %s)" % (o, a)) * d)))
+FAMILIES["if_cond_paren_and"] = (2, lambda d: wrap("  if (" + "(m .and. " * d + "m" + ")" * d + ") x = 1\n"))
+
+EXPR_NEST = tuple(k for k in FAMILIES if k.startswith(("paren_right_", "paren_left_", "if_cond_paren"))) + ("parens", "signed_parens", "plus_signed", "signed_sum", "not_parens", "call_nest", "index_nest",
              "mixed_nest", "array_ctor_nest")
 # recorded findings (KNOWN_FINDINGS.txt): families that are exponential on the pinned tree.  They stay in the
 # catalogue (signature growth:<family>) so that the finding is re-confirmed on every run.
